@@ -203,7 +203,18 @@ impl World {
                 self.dfd_ptr = d;
                 self.env.as_mut().unwrap().dfd = Some(unsafe { &*d });
             }
-            _ => panic!("world: could not create direct descriptor"),
+            _ => {
+                // The kernel posted the completion and Ring::poll ran twice: a10 did not hand
+                // the completion to its operation (every history starts like this, with the
+                // counters where the scenario put them).
+                self.viol.push(Violation {
+                    prop: "C05".into(),
+                    sig: "completion-not-delivered:set-up".into(),
+                    detail: format!("the first operation of the history (to_direct_descriptor) was completed by the kernel but did not resolve after two Ring::poll calls (completion queue counters started at {:#x})", simk::k().knobs.cq_start),
+                });
+                self.poisoned = true;
+                return;
+            }
         }
         self.slots[i].state = SlotState::Dropped;
         self.slots[i].op = None;
